@@ -56,9 +56,11 @@ type Explorer struct {
 	replayLen int
 	base      int
 
-	nondets   []nondetRec
-	nameCount map[string]int
-	journal   []undoEntry
+	nondets    []nondetRec
+	nameCount  map[string]int
+	journal    []undoEntry
+	bounds     boundsMap
+	AbsDecided int64
 
 	// budgets
 	maxPaths      int
@@ -116,6 +118,26 @@ func (e *Explorer) inconclusive(msg string) {
 // are also assumed to cover all cases (so the last remaining one needs no check).
 func (e *Explorer) choose(kind string, conds []*Term, exhaustive bool) int {
 	n := len(conds)
+	// interval pre-check (sound): replace decided guards by constants
+	pre := make([]*Term, n)
+	changed := false
+	for j, c := range conds {
+		pre[j] = c
+		if !c.isConst() {
+			switch e.evalBool(c, 8) {
+			case 1:
+				pre[j] = tTrue
+				changed = true
+			case 0:
+				pre[j] = tFalse
+				changed = true
+			}
+		}
+	}
+	if changed {
+		e.AbsDecided++
+		conds = pre
+	}
 	// trivial cases: no decision needed
 	nonFalse := -1
 	cnt := 0
@@ -158,6 +180,9 @@ func (e *Explorer) chooseFree(kind string, n int) int {
 }
 
 func (e *Explorer) decide(kind string, n int, cond func(int) *Term, exhaustive bool, payload int64, hasPayload bool) int {
+	if e.it != nil && e.it.specDepth > 0 {
+		panic(specAbort{"decision inside a speculative region", false})
+	}
 	e.Decisions++
 	if e.pos < e.replayLen-1 {
 		d := e.trail[e.pos]
@@ -165,6 +190,7 @@ func (e *Explorer) decide(kind string, n int, cond func(int) *Term, exhaustive b
 			panic(unsupported(fmt.Sprintf("non-deterministic re-execution: decision %d was %s/%d now %s/%d", e.pos, d.kind, d.n, kind, n)))
 		}
 		e.pos++
+		e.harvest(cond(d.chosen))
 		return d.chosen
 	}
 	start := 0
@@ -214,6 +240,7 @@ func (e *Explorer) decide(kind string, n int, cond func(int) *Term, exhaustive b
 		}
 		e.trail[idx].chosen = j
 		e.pos = idx + 1
+		e.harvest(c)
 		return j
 	}
 	e.trail[idx].chosen = n - 1
@@ -284,9 +311,13 @@ func (e *Explorer) assume(c *Term) {
 	if c.isTrue() {
 		return
 	}
+	if e.it != nil && e.it.specDepth > 0 {
+		panic(specAbort{"assume inside a speculative region", true})
+	}
 	if c.isFalse() {
 		panic(pathEnd{"assumption false"})
 	}
+	e.harvest(c)
 	if e.replaying() {
 		return
 	}
@@ -301,6 +332,9 @@ func (e *Explorer) assume(c *Term) {
 
 // assertHolds discharges pc ∧ ¬c.
 func (e *Explorer) assertHolds(c *Term, label string) {
+	if e.it != nil && e.it.specDepth > 0 {
+		panic(specAbort{"assert inside a speculative region", true})
+	}
 	if e.AssertLabels == nil {
 		e.AssertLabels = map[string]int{}
 	}
@@ -308,6 +342,7 @@ func (e *Explorer) assertHolds(c *Term, label string) {
 		if c.isFalse() {
 			panic(pathEnd{"assertion failed (already reported)"})
 		}
+		e.harvest(c)
 		return
 	}
 	e.AssertLabels[label]++
@@ -371,6 +406,7 @@ func (e *Explorer) assertHolds(c *Term, label string) {
 		panic(pathEnd{"assertion failed"})
 	}
 	// continue under the assumption that it held
+	e.harvest(c)
 	e.solver.Assert(c)
 	if e.solver.Check() == Unsat {
 		panic(pathEnd{"assertion always fails here"})
@@ -492,6 +528,7 @@ func (e *Explorer) Run(entry func()) {
 		e.replayLen = len(e.trail)
 		e.nondets = e.nondets[:0]
 		e.nameCount = map[string]int{}
+		e.bounds = boundsMap{}
 		e.steps = 0
 		reason := e.runOnce(entry)
 		e.Paths++
